@@ -1473,3 +1473,134 @@ Proof.
       apply IH; auto. cbn [ti_offset ti_prompt].
       intros Hs. eapply ti_scrolled_next_sound; eauto.
 Qed.
+
+(* ================================================================== programmatic edits whose
+   argument is derived from the text the widget holds (SetContent / InsertStringAtCursor /
+   Reset or Enter and the old text again): the widgets have no "unchanged" shortcut — the
+   result depends on the argument alone, not on the state the argument happens to equal *)
+
+Lemma derived_in_alpha {G} (A cur ks : list G) : in_alpha A cur -> derived_from A cur ks -> in_alpha A ks.
+Proof.
+  unfold in_alpha, derived_from. rewrite !Forall_forall. intros H1 H2 c Hc.
+  destruct (H2 c Hc) as [H|H]; auto.
+Qed.
+
+Lemma firstn_In_c17 {G} (l : list G) k c : In c (firstn k l) -> In c l.
+Proof. rewrite <- (firstn_skipn k l) at 2. rewrite in_app_iff; auto. Qed.
+Lemma skipn_In_c17 {G} (l : list G) k c : In c (skipn k l) -> In c l.
+Proof. rewrite <- (firstn_skipn k l) at 2. rewrite in_app_iff; auto. Qed.
+
+Lemma derived_same {G} (A cur : list G) : derived_from A cur cur.
+Proof. unfold derived_from. rewrite Forall_forall. auto. Qed.
+Lemma derived_firstn {G} (A cur : list G) k : derived_from A cur (firstn k cur).
+Proof. unfold derived_from. rewrite Forall_forall. intros c Hc. left. eapply firstn_In_c17; eauto. Qed.
+Lemma derived_skipn {G} (A cur : list G) k : derived_from A cur (skipn k cur).
+Proof. unfold derived_from. rewrite Forall_forall. intros c Hc. left. eapply skipn_In_c17; eauto. Qed.
+Lemma derived_app {G} (A cur a b : list G) : derived_from A cur a -> derived_from A cur b -> derived_from A cur (a ++ b).
+Proof. unfold derived_from. intros; apply Forall_app; auto. Qed.
+Lemma derived_alpha {G} (A cur ks : list G) : in_alpha A ks -> derived_from A cur ks.
+Proof. unfold derived_from, in_alpha. intros H; eapply Forall_impl; [|exact H]. cbn; auto. Qed.
+
+(* SetContent in EVERY state (whatever the content, the cursor, the scroll offset, the paste
+   buffer): the content is the segmentation of the argument and the cursor is at its end *)
+Lemma ti_set_content_every_state chars alnum (A : list cluster) :
+  (forall cs, in_alpha A cs -> chars (cl_text cs) = Some cs) ->
+  forall (m : ti) ks, in_alpha A ks ->
+    ti_step chars alnum m (OSetContent (cl_text ks)) =
+    TiOk (mkTi ks (zlen ks) (ti_offset m) (ti_paste m) (ti_prompt m)) None.
+Proof.
+  intros Hst m ks Hks. cbn [ti_step]. unfold ti_set_content. rewrite (Hst _ Hks). reflexivity.
+Qed.
+
+(* after any history the content consists of alphabet clusters *)
+Lemma ti_run_content_in_alpha chars alnum (A : list cluster) :
+  (forall cs, in_alpha A cs -> chars (cl_text cs) = Some cs) ->
+  forall e0 off paste pr os m',
+    in_alpha A (i_text e0) -> (exists ps, in_alpha A ps /\ paste = cl_text ps) ->
+    Forall (ti_op_ok A) os ->
+    ti_run chars alnum (ti_of_ideal e0 off paste pr) os = Some m' -> in_alpha A (ti_content m').
+Proof.
+  intros Hst e0 off paste pr os m' HA HP Hos Hrun.
+  destruct (ti_run_refines chars alnum A Hst e0 off paste pr os HA HP Hos) as (off' & H1 & H2).
+  rewrite Hrun in H1. injection H1 as ->. exact H2.
+Qed.
+
+Theorem ti_setcontent_derived chars alnum (A : list cluster) :
+  (forall cs, in_alpha A cs -> chars (cl_text cs) = Some cs) ->
+  forall e0 off paste pr os m',
+    in_alpha A (i_text e0) -> (exists ps, in_alpha A ps /\ paste = cl_text ps) ->
+    Forall (ti_op_ok A) os ->
+    ti_run chars alnum (ti_of_ideal e0 off paste pr) os = Some m' ->
+    forall ks, derived_from A (ti_content m') ks ->
+      ti_step chars alnum m' (OSetContent (cl_text ks)) =
+        TiOk (mkTi ks (zlen ks) (ti_offset m') (ti_paste m') (ti_prompt m')) None /\
+      i_step (ti_isw alnum) (i_make (ti_content m') (ti_cursor m')) (ISet ks) = i_make ks (zlen ks).
+Proof.
+  intros Hst e0 off paste pr os m' HA HP Hos Hrun ks Hks.
+  pose proof (ti_run_content_in_alpha chars alnum A Hst e0 off paste pr os m' HA HP Hos Hrun) as Hc.
+  split.
+  - apply (ti_set_content_every_state chars alnum A Hst). eapply derived_in_alpha; eauto.
+  - cbn [i_step]. unfold i_make. now rewrite firstn_zlen_app', skipn_zlen_app'.
+Qed.
+
+Corollary ti_setcontent_same_text chars alnum (A : list cluster) :
+  (forall cs, in_alpha A cs -> chars (cl_text cs) = Some cs) ->
+  forall e0 off paste pr os m',
+    in_alpha A (i_text e0) -> (exists ps, in_alpha A ps /\ paste = cl_text ps) ->
+    Forall (ti_op_ok A) os ->
+    ti_run chars alnum (ti_of_ideal e0 off paste pr) os = Some m' ->
+    exists m'', ti_run chars alnum m' [OSetContent (cl_text (ti_content m'))] = Some m'' /\
+      ti_content m'' = ti_content m' /\ ti_cursor m'' = zlen (ti_content m').
+Proof.
+  intros Hst e0 off paste pr os m' HA HP Hos Hrun.
+  destruct (ti_setcontent_derived chars alnum A Hst e0 off paste pr os m' HA HP Hos Hrun
+              (ti_content m') (derived_same A _)) as [H _].
+  cbn [ti_run]. rewrite H. eexists; split; [reflexivity|]. split; reflexivity.
+Qed.
+
+(* ---------------- TextField *)
+
+Lemma i_run_app {G} isw (e : ideal G) a b : i_run isw e (a ++ b) = i_run isw (i_run isw e a) b.
+Proof. unfold i_run. apply fold_left_app. Qed.
+
+Theorem tf_reinsert_derived seg (A : list text) :
+  (forall cs, in_alpha A cs -> seg (concat cs) = Some cs) ->
+  forall e0 os, in_alpha A (i_text e0) -> Forall (tf_op_ok A) os ->
+    let e' := i_run (fun _ => false) e0 (map (tf_abs seg) os) in
+    forall ks, derived_from A (i_text e') ks ->
+      (exists log, tf_run seg (tf_of_ideal e0) (os ++ [TInsertApi (concat ks)]) =
+                   Some (tf_of_ideal (i_step (fun _ => false) e' (IIns ks)), log)) /\
+      (exists log, tf_run seg (tf_of_ideal e0) (os ++ [TResetApi; TInsertApi (concat ks)]) =
+                   Some (mkTf (concat ks) (zlen ks) (zlen ks), log)) /\
+      (exists log, tf_run seg (tf_of_ideal e0) (os ++ [TKey TkEnter; TText (concat ks)]) =
+                   Some (mkTf (concat ks) (zlen ks) (zlen ks), log)).
+Proof.
+  intros Hst e0 os HA Hos e' ks Hks.
+  destruct (tf_run_refines seg A Hst e0 os HA Hos) as (st0 & log0 & _ & _ & HA').
+  fold e' in HA'.
+  assert (HksA : in_alpha A ks) by (eapply derived_in_alpha; eauto).
+  assert (Hins : tf_op_ok A (TInsertApi (concat ks))) by (exists ks; auto).
+  assert (Htxt : tf_op_ok A (TText (concat ks))) by (exists ks; auto).
+  assert (Habs : tf_abs seg (TInsertApi (concat ks)) = IIns ks).
+  { unfold tf_abs; cbn [tf_op_text tf_iop_of]. now rewrite (Hst _ HksA). }
+  assert (Habs2 : tf_abs seg (TText (concat ks)) = IIns ks).
+  { unfold tf_abs; cbn [tf_op_text tf_iop_of]. now rewrite (Hst _ HksA). }
+  assert (Hend : forall tail, Forall (tf_op_ok A) tail ->
+            exists log, tf_run seg (tf_of_ideal e0) (os ++ tail) =
+              Some (tf_of_ideal (i_run (fun _ => false) e' (map (tf_abs seg) tail)), log)).
+  { intros tail Ht.
+    destruct (tf_run_refines seg A Hst e0 (os ++ tail) HA) as (st & log & H1 & H2 & _).
+    - apply Forall_app; auto.
+    - exists log. rewrite H1. f_equal. f_equal. rewrite H2, map_app, i_run_app. reflexivity. }
+  split; [|split].
+  - destruct (Hend [TInsertApi (concat ks)]) as (log & H); [repeat constructor; auto|].
+    exists log. rewrite H. cbn [map]. rewrite Habs. reflexivity.
+  - destruct (Hend [TResetApi; TInsertApi (concat ks)]) as (log & H); [repeat constructor; auto|].
+    exists log. rewrite H. cbn [map]. rewrite Habs. unfold i_run; cbn [fold_left tf_abs tf_iop_of i_step i_left i_right].
+    unfold tf_of_ideal, i_text, i_index; cbn [i_left i_right].
+    now rewrite app_nil_r, app_nil_r, rev_involutive, zlen_rev.
+  - destruct (Hend [TKey TkEnter; TText (concat ks)]) as (log & H); [repeat constructor; auto|].
+    exists log. rewrite H. cbn [map]. rewrite Habs2. unfold i_run; cbn [fold_left tf_abs tf_iop_of i_step i_left i_right].
+    unfold tf_of_ideal, i_text, i_index; cbn [i_left i_right].
+    now rewrite app_nil_r, app_nil_r, rev_involutive, zlen_rev.
+Qed.
